@@ -39,6 +39,8 @@ FIXES = [
     ("fix: one provider without an exchange rate", "D16", ["C06"], "regress/C06/d16-unpriceable-provider-blocks-batch.json"),
     ("fix: key an owner's earned fees by denom", "D17", ["C18"], "regress/C18/d17-owner-earnings-key-ignores-denom.json"),
     ("fix: drop an owner's earned-fee record of a denom", "D18", ["C13"], "regress/C13/d18-stale-owner-total-after-partial-withdrawal.json"),
+    ("fix: cap the minimum deposit at the largest amount", "D19", ["C20"], "regress/C20/d19-price-times-multiple-overflows.json"),
+    ("fix: MockToken.ToMinCoin returns an error", "D20", ["C20"], "regress/C20/d20-main-unit-price-overflows-conversion.json"),
 ]
 
 
